@@ -995,6 +995,9 @@ func main() {
 	}
 	phase["one-message"] = time.Since(t2).Seconds()
 	t2 = time.Now()
+	longLists()
+	phase["long-lists"] = time.Since(t2).Seconds()
+	t2 = time.Now()
 	var st stats
 	errorShapes(&st)
 	st.flush()
@@ -1029,7 +1032,7 @@ func main() {
 		"each with 12 candidate signatures (expected aggregate, +g1, minus first/last term, identity signature, +T of order 3, +cofactor point, sign-bit flip, x-lsb flip, lengths 0/47/49); "+
 		"oracle: true iff no key is the identity and candidate == canonical encoding of sum sk_i*H_i(m_i) (refbls, known discrete logs). "+
 		"VerifyBLSSignatureOneMessage: all 4^L key sequences L=1..4 x 3 combos x 2 policies x same candidates vs Verify under the reference sum of keys (pairing-free verdict and the library's Verify under the decoded reference sum). "+
-		"Error shapes: empty, each list +-1, nil/wrong-size hasher and ECDSA key at every index, L=1..4. A case is distinct by (function, L, shape index, policy) or (error class).")
+		"Long lists: lengths {7,8,9,15,16,17,33,65} (thorough up to 129) x 5 list patterns (all distinct; one message; one key; two keys alternating; distinct messages with a cancelling pair last) x 4 candidates, generic oracle. Error shapes: empty, each list +-1, nil/wrong-size hasher and ECDSA key at every index, L=1..4. A case is distinct by (function, L, shape index, policy) or (error class).")
 	run.Set("shapes_per_block", shapeCounts)
 	run.Set("key_alphabet", keyNames)
 	run.Set("policies", policies)
@@ -1054,4 +1057,84 @@ func main() {
 		"the order in which Go's map iteration hands groups to C is not owned; the oracle does not depend on it",
 		"Go toolchain and math/big are trusted")
 	run.Finish()
+}
+
+
+// longLists: list lengths around the powers of two up to 129 (the C layer multiplies pairings in
+// batches and groups couples per message or per key) under five list patterns, each with four
+// candidate signatures; the generic oracle (sum sk_i*H_i(m_i), no identity key) decides.
+func longLists() {
+	lens := []int{7, 8, 9, 15, 16, 17, 31, 32, 33, 63, 64, 65, 128, 129}
+	if !run.Thorough() {
+		lens = []int{7, 8, 9, 15, 16, 17, 33, 65}
+	}
+	patterns := []string{"distinct-keys-distinct-messages", "distinct-keys-one-message", "one-key-distinct-messages", "two-keys-alternating-distinct-messages", "distinct-messages-then-cancelling-pair-last"}
+	type job struct {
+		L   int
+		pat string
+	}
+	var jobs []job
+	for _, L := range lens {
+		for _, p := range patterns {
+			jobs = append(jobs, job{L, p})
+		}
+	}
+	run.Set("long_list_lengths", lens)
+	run.Set("long_list_patterns", patterns)
+	base := scalarXY(7, 11)
+	ev.Par(len(jobs), func(ji int) {
+		j := jobs[ji]
+		var st stats
+		defer st.flush()
+		sks := make([]*big.Int, j.L)
+		msgs := make([][]byte, j.L)
+		tags := make([]string, j.L)
+		for i := 0; i < j.L; i++ {
+			tags[i] = "c02-long"
+			msgs[i] = []byte(fmt.Sprintf("c02 long message %d", i))
+			sks[i] = mod(new(big.Int).Add(base, big.NewInt(int64(1000*i))))
+			switch j.pat {
+			case "distinct-keys-one-message":
+				msgs[i] = msgs[0]
+			case "one-key-distinct-messages":
+				sks[i] = base
+			case "two-keys-alternating-distinct-messages":
+				sks[i] = mod(new(big.Int).Add(base, big.NewInt(int64(i%2))))
+			case "distinct-messages-then-cancelling-pair-last":
+				if i == j.L-2 {
+					sks[i] = base
+				}
+				if i == j.L-1 {
+					sks[i] = mod(new(big.Int).Neg(base))
+					msgs[i] = msgs[i-1]
+				}
+			}
+		}
+		pks := make([]crypto.PublicKey, j.L)
+		hs := make([]hash.Hasher, j.L)
+		for i := range pks {
+			pks[i] = libPK(sks[i])
+			hs[i] = newHasher(tags[i])
+		}
+		_, enc := oracleMany(sks, msgs, tags, nil)
+		e, _ := refbls.DecodeG1(enc)
+		first := hashPoint(msgs[0], tags[0]).Mul(sks[0])
+		last := hashPoint(msgs[j.L-1], tags[j.L-1]).Mul(sks[j.L-1])
+		for _, c := range candidates(e, first, last, j.L)[:4] {
+			want, _ := oracleMany(sks, msgs, tags, c.sig)
+			got, err := crypto.VerifyBLSSignatureManyMessages(pks, c.sig, msgs, hs)
+			st.add("evaluations", 1)
+			st.add(fmt.Sprintf("outcome/long/%s/%v", c.kind, want), 1)
+			if err != nil || got != want {
+				what := "accepts-invalid"
+				if want {
+					what = "rejects-valid"
+				}
+				run.Violation(fmt.Sprintf("many:long:%s:%s:%s", what, c.kind, j.pat),
+					fmt.Sprintf("VerifyBLSSignatureManyMessages on a list of %d couples (%s) with candidate %s = (%v,%v), the definition says %v", j.L, j.pat, c.kind, got, err, want),
+					map[string]any{"length": j.L, "pattern": j.pat, "candidate": c.kind, "signature": ev.Hex(c.sig), "rule": "sk_i = base + 1000*i (pattern-specific overrides), message i = 'c02 long message i', tag 'c02-long'", "base_scalar": ev.Hex(refbls.ScalarBytes(base))})
+			}
+		}
+		run.Distinct(fmt.Sprintf("long/%d/%s", j.L, j.pat))
+	})
 }
